@@ -809,3 +809,137 @@ def check_liveness(scn, res):
 
 def oracle_c06(scn, res):
     return check_liveness(scn, res) + check_order(scn, res) + check_sets(scn, res, restarts=True), outcome(res)
+
+
+# ---- C08: lifecycle and exit propagation ------------------------------------------------------------------------------------
+
+def neighbours(scn):
+    nb = {f['name']: set() for f in scn['filters']}
+
+    for f in scn['filters']:
+        srcs = (f.get('config') or {}).get('sources')
+
+        for up, eph, _, _ in sources_of(f):
+            if srcs is None:          # (a victim with a deliberately invalid source list has no connections)
+                nb[f['name']].add((up, eph))
+                nb[up].add((f['name'], eph))
+
+    return nb
+
+
+def expected_exits(scn, res=None):
+    """Closure of the exit announcement over the connection graph -> {filter: (kind, how)}.  A downstream neighbour counts
+    only if its SUB was attached when the announcement was published (PUB/SUB does not queue for absent subscribers); an
+    upstream neighbour always counts (the PUSH side queues)."""
+
+    from .topo import FLAGS
+
+    c     = scn['c08']
+    prop  = FLAGS[c['prop']]
+    obey  = FLAGS[c['obey']]
+    nb    = neighbours(scn)
+    bit   = {'clean': 1, 'error': 2}
+    ended = {c['victim']: ('clean', 'returned') if c['kind'] == 'clean' else ('error', 'raised')}
+
+    if c['kind'] == 'init-error':
+        return ended
+
+    todo = [c['victim']]
+
+    while todo:
+        y = todo.pop(0)
+        k = ended[y][0]
+
+        if not prop & bit[k]:
+            continue
+
+        for z, eph in sorted(nb[y]):
+            if z in ended:
+                continue
+
+            # y -> z direction: a '??' consumer has no request socket, so it cannot tell its publisher anything
+            z_is_upstream = any(up == z for up, _, _, _ in sources_of(fdict(scn)[y]))
+
+            if z_is_upstream and eph == 2:
+                continue
+
+            if not z_is_upstream and res is not None and not any(
+                    w[1] == 'snd' and w[3][0] == 'pub' and w[3][2] == -2 and w[2].split('#')[0] == f'{y}>{z}' for w in res.wire):
+                continue
+
+            if obey & bit[k]:
+                ended[z] = (k, 'returned')      # an obeyed error ends via PropagateError, which run() swallows
+                todo.append(z)
+
+    return ended
+
+
+def check_lifecycle(scn, res):
+    viols = []
+    c     = scn['c08']
+    fam   = f'{c["ending"]}'
+
+    def bad(kind, what, d=None):
+        viols.append({'signature': f'C08/{kind}/{fam}', 'what': f'[{scn.get("name")}] {what}', 'detail': d})
+
+    per = {}
+
+    for e in res.log:
+        if 'f' in e:
+            per.setdefault((e['f'], e.get('inc', 0)), []).append(e)
+
+    exp = expected_exits(scn, res)
+
+    for f in scn['filters']:
+        name = f['name']
+        evs  = per.get((name, 0), [])
+        kinds = [e['ev'] for e in evs]
+        end  = next((e for e in evs if e['ev'] == 'end'), None)
+        nsetup = kinds.count('setup')
+        nshut  = kinds.count('shutdown')
+        init_done = 'init_done' in kinds
+
+        # per filter: shutdown exactly once iff setup completed (once the filter has ended)
+        if end is not None:
+            if nshut != (1 if nsetup else 0):
+                bad('shutdown-count', f'{name}: setup completed {nsetup}x but shutdown ran {nshut}x (ending: {end})')
+
+            if not end.get('stop_evt'):
+                bad('stop-evt-not-set', f'{name} ended ({end["how"]}) with its stop event not set')
+
+            left = [s for s in res.open_sockets if s[0] == name and s[1] == 0]
+
+            if init_done and left:
+                bad('sockets-left-open', f'{name} ended but left {len(left)} socket(s) open: communication not torn down')
+
+        elif nshut > 1:
+            bad('shutdown-count', f'{name}: shutdown ran {nshut}x')
+
+        want = exp.get(name)
+
+        if want is None:
+            if end is not None:
+                bad('unexpected-exit', f'{name} ended ({end["how"]} {end.get("exc")}) although policy prop={c["prop"]} obey={c["obey"]} does not reach it '
+                    f'from {c["victim"]} ({c["ending"]})')
+        else:
+            if end is None:
+                bad('did-not-exit', f'{name} is still running at {res.now} ms; expected it to end ({want[0]}) after {c["victim"]} {c["ending"]} under '
+                    f'prop={c["prop"]} obey={c["obey"]}', {'log': [e for e in evs if e['ev'] != 'process'][-6:]})
+            elif end['how'] != want[1]:
+                bad('wrong-run-result', f'{name}: run() {end["how"]} ({end.get("exc")}: {end.get("msg")}), expected {want[1]} for a {want[0]} ending '
+                    f'({c["victim"]} {c["ending"]})')
+            elif name == c['victim'] and want[1] == 'raised' and c['kind'] == 'error' and end.get('exc') != 'RuntimeError' and c['ending'] != 'raise-recv':
+                bad('wrong-exception', f'{name}: run() raised {end.get("exc")}: {end.get("msg")}, expected the injected RuntimeError')
+
+    # exit_after: the victim ends cleanly within one loop iteration after T
+    if c['ending'].startswith('exit-after'):
+        end = next((e for e in per.get((c['victim'], 0), []) if e['ev'] == 'end'), None)
+
+        if end is not None and end['how'] == 'returned' and not (300 <= end['t'] <= 300 + 40 + 100 + 60):
+            bad('exit-after-time', f'{c["victim"]} with exit_after 0.3 s ended at {end["t"]} ms')
+
+    return viols
+
+
+def oracle_c08(scn, res):
+    return check_lifecycle(scn, res), outcome(res)
